@@ -311,6 +311,20 @@ impl Stream for Exhaustive
 	}
 }
 
+/// the source of one random body (also compiled to IR by C02)
+pub fn random_source(c: &mut Choices) -> String
+{
+	let atoms = atoms_large();
+	let g = Grammar {
+		atoms: atoms.len(),
+		naked_branches: false,
+	};
+	let mut budget = 40;
+	let has_return = c.flag();
+	let body = treegen::random_seq(c, g, &mut budget, 5, 12);
+	render(&body, &atoms, has_return)
+}
+
 struct RandomBodies;
 impl Stream for RandomBodies
 {
